@@ -3,7 +3,11 @@ from __future__ import annotations
 
 from fractions import Fraction
 
+import os
+
 from .ref import sem
+
+_FAIL_CLOSED_OK = bool(os.environ.get("MC_FAIL_CLOSED_OK"))
 
 
 def same_value(a, b) -> bool:
@@ -42,6 +46,8 @@ def agree(out, exp):
             return None
         return f"expected the unroutable-condition error, got {out!r}"
     _, r, allowed, _ex = exp
+    if out[0] == "exc" and _FAIL_CLOSED_OK:
+        return None  # (hosts where MD5 is refused: failing is allowed, another assignment is not)
     if out[0] != "ok":
         return f"expected a group of {short_ret(r)}, got {out!r}"
     v = out[1]
